@@ -1690,3 +1690,72 @@ func ruleVJOIN(p *Program, r *Reporter) {
 			ifs(ok2, "the processor runs in this goroutine, or its goroutine is waited for before returning", "TableCache.Run can return while the event processor it started is still running: the client reconnects and starts a second one on the same queue, and handlers see events out of order"))
 	}
 }
+
+// ---------------------------------------------------------------------------
+// P-NIL-LOOKUP — in the client's notification handlers (and what they reach in
+// package client) a pointer read out of a map is only dereferenced where it is
+// known to be there: the comma-ok of that lookup is true, or a nil test
+// dominates. The map is keyed by what the server sends (monitor ids).
+
+func rulePNILLOOKUP(p *Program, r *Reporter) {
+	const id = "P-NIL-LOOKUP"
+	var roots []*ssa.Function
+	for _, reg := range rpcRegistrations(p, "client", "Client") {
+		if reg.target != nil {
+			if f := p.SSAFunc(reg.target); f != nil {
+				roots = append(roots, f)
+			}
+		}
+	}
+	if len(roots) < 3 {
+		r.Anchor(id, "client notification handlers")
+		return
+	}
+	n := 0
+	for _, fn := range p.Reach(roots...) {
+		if pkgOf(fn) != "client" {
+			continue
+		}
+		fc := newFlowCtx(fn)
+		derefSites(fn, func(v ssa.Value) string {
+			var lk *ssa.Lookup
+			switch x := v.(type) {
+			case *ssa.Lookup:
+				lk = x
+			case *ssa.Extract:
+				if x.Index == 0 {
+					lk, _ = x.Tuple.(*ssa.Lookup)
+				}
+			}
+			if lk == nil {
+				return ""
+			}
+			mt, ok := lk.X.Type().Underlying().(*types.Map)
+			if !ok {
+				return ""
+			}
+			if _, isPtr := mt.Elem().Underlying().(*types.Pointer); !isPtr {
+				return ""
+			}
+			return "map element " + types.TypeString(mt.Elem(), func(*types.Package) string { return "" })
+		}, func(at ssa.Instruction, ptr ssa.Value, label string) {
+			n++
+			ok, why := fc.nonNilAt(ptr, at)
+			if !ok {
+				if ex, isEx := ptr.(*ssa.Extract); isEx {
+					for _, f := range conjunctFacts(at.Block()) {
+						c, truth := normFact(f)
+						if e1, isE := c.(*ssa.Extract); isE && truth && e1.Index == 1 && e1.Tuple == ex.Tuple {
+							ok, why = true, "the comma-ok of the lookup is true here"
+						}
+					}
+				}
+			}
+			if !ok {
+				why = "a " + label + " read out of a map keyed by what the peer sent is dereferenced without a presence or nil test: a notification that names an unknown entry crashes the client"
+			}
+			r.Ob(id, funcName(fn), "deref "+label, at.Pos(), ok, true, why)
+		})
+	}
+	r.Count(id, 1)
+}
